@@ -607,9 +607,9 @@ pub fn check(prop: &'static str, tier: Tier) -> Report {
         run_struct(prop, &ConcCase::from_json(&doc["case"]))
     });
     let (cases, max_len) = match (prop, tier) {
-        ("C04", Tier::Quick) => (5000, 700),
+        ("C04", Tier::Quick) => (12_000, 700),
         ("C04", Tier::Thorough) => (150_000, 1200),
-        (_, Tier::Quick) => (3000, 1200),
+        (_, Tier::Quick) => (9000, 1200),
         (_, Tier::Thorough) => (80_000, 2500),
     };
     let dec = move |b: &[u8]| if prop == "C04" { decode_c04(b, tier) } else { decode_c02(b, tier) };
@@ -635,6 +635,32 @@ pub fn replay(prop: &'static str, path: &str) -> Report {
     let mut report = Report { property: prop.into(), ..Report::default() };
     let doc: serde_json::Value =
         serde_json::from_str(&std::fs::read_to_string(path).expect("read")).expect("json");
+    if doc["part"].as_str() == Some("set_stress") {
+        // a thread plan of part 3: probabilistic, so it is run many times
+        use crate::ck_sets::{InMemoryKos, SetPlan, run_plan};
+        type Dash = Arc<dashmap::DashSet<u32, fxhash::FxBuildHasher>>;
+        let bytes: Vec<u8> = doc["bytes"]
+            .as_array()
+            .map(|a| a.iter().map(|x| x.as_u64().unwrap_or(0) as u8).collect())
+            .unwrap_or_default();
+        let plan = SetPlan::decode(&mut Tape::new(&bytes));
+        println!("{plan:#?}");
+        for _ in 0..300 {
+            let cr = match doc["set"].as_str() {
+                Some("dashset") => run_plan::<Dash>(&plan),
+                Some("in_memory_key_of_set_map") => run_plan::<InMemoryKos>(&plan),
+                #[cfg(feature = "hooks")]
+                _ => run_plan::<qbice::engine::verif::VerifBackwardEdgeSet>(&plan),
+                #[cfg(not(feature = "hooks"))]
+                _ => CaseResult::default(),
+            };
+            if let Some(v) = cr.violation {
+                report.violations.push((path.to_string(), v));
+                break;
+            }
+        }
+        return report;
+    }
     let case = ConcCase::from_json(&doc["case"]);
     println!("{}", case.pretty());
     if let Some(v) = run_struct(prop, &case).violation {
@@ -646,7 +672,7 @@ pub fn replay(prop: &'static str, path: &str) -> Report {
 /// C02 part 3: the backward-edge set (and `Arc<DashSet>`) under real threads.
 fn set_stress(tier: Tier, seed: u64, report: &mut Report, ev: &mut Evidence) {
     use crate::ck_sets::{SetPlan, run_plan};
-    let cases = if tier == Tier::Thorough { 5000 } else { 400 };
+    let cases = if tier == Tier::Thorough { 8000 } else { 800 };
     crate::driver::SHARDS_OVERRIDE.with(|s| s.set(Some(2)));
     type Dash = Arc<dashmap::DashSet<u32, fxhash::FxBuildHasher>>;
     let tolerated = known::tolerated("C02");
@@ -664,6 +690,13 @@ fn set_stress(tier: Tier, seed: u64, report: &mut Report, ev: &mut Evidence) {
         Box::new(|b: &[u8]| {
             let mut t = Tape::new(b);
             run_plan::<Dash>(&SetPlan::decode(&mut t))
+        }),
+    ));
+    runs.push((
+        "in_memory_key_of_set_map",
+        Box::new(|b: &[u8]| {
+            let mut t = Tape::new(b);
+            run_plan::<crate::ck_sets::InMemoryKos>(&SetPlan::decode(&mut t))
         }),
     ));
     for (name, f) in runs {
